@@ -8,6 +8,7 @@ import (
 	"reflect"
 	"strings"
 	"sync"
+	"sync/atomic"
 	"time"
 
 	"nhooyr.io/websocket"
@@ -73,6 +74,12 @@ func c19Setup() {
 			}
 			c19Pooled[obj] = true
 		case "get":
+			// (the hook reports only buffers that come OUT of the pool, not new ones: such a buffer was put before)
+			if !c19Pooled[obj] {
+				if len(c19PoolVios) < 5 {
+					c19PoolVios = append(c19PoolVios, fmt.Sprintf("double-get: buffer %p handed out by the pool although it is not in the pool (handed out already, never returned)", obj))
+				}
+			}
 			delete(c19Pooled, obj)
 		}
 	})
@@ -87,6 +94,10 @@ func c19TakePool(r *fw.R) {
 	c19PoolMu.Unlock()
 	r.Count("pool_events", ev)
 	for _, v := range vs {
+		if strings.HasPrefix(v, "double-get") {
+			r.Violate("C19/pool-double-get", v, "")
+			continue
+		}
 		r.Violate("C19/pool-double-put", v, "")
 	}
 }
@@ -113,6 +124,20 @@ func c19Gen(tier string, seed int64) []fw.Case {
 	// small ones: whatever buffer a Write encodes into is its own until the message has gone out
 	for i := 0; i < tierPick(tier, 12, 80); i++ {
 		add(c19Desc{Kind: "write-concurrent", Role: bothRoles[i%2], N: 15, Conns: 5 + rng.Intn(4), Defl: i%3 == 0}, fmt.Sprintf("write-concurrent/%s", bothRoles[i%2]))
+	}
+	// documents of one to several MiB, sizes on both sides of the powers of two
+	hs := []int{1<<20 - 64, 1<<20 - 1, 1 << 20, 1<<20 + 1, 1<<20 + 4096, 3 << 19, 1<<21 - 1, 1 << 21, 1<<21 + 1, 3 << 20, 1<<22 + 1, 5 << 20}
+	for i, sz := range hs {
+		if tier == "quick" && i%2 == 1 && sz > 1<<21 {
+			continue
+		}
+		add(c19Desc{Kind: "huge", Role: bothRoles[i%2], N: sz, Defl: i%3 == 0}, fmt.Sprintf("huge/%s/%d", bothRoles[i%2], sz))
+		if tier != "quick" {
+			add(c19Desc{Kind: "huge", Role: bothRoles[(i+1)%2], N: sz, Defl: i%3 != 0}, fmt.Sprintf("huge/%s/%d", bothRoles[(i+1)%2], sz))
+		}
+	}
+	for i := 0; i < tierPick(tier, 6, 40); i++ {
+		add(c19Desc{Kind: "hammer", Role: bothRoles[i%2], N: 4000, Conns: 16 + 8*(i%3)}, fmt.Sprintf("hammer/%s", bothRoles[i%2]))
 	}
 	na := tierPick(tier, 40, 80)
 	for i := 0; i < na; i++ {
@@ -293,7 +318,152 @@ func c19Run(r *fw.R, d c19Desc) {
 		c19Invalid(r, d)
 	case "over-limit":
 		c19OverLimit(r, d)
+	case "huge":
+		c19Huge(r, d)
+	case "hammer":
+		c19Hammer(r, d)
 	}
+}
+
+// c19Hammer: d.Conns connections each find d.N tiny documents waiting and read them as fast as they can, all at
+// the same time: the buffer pool is taken from and given to at the highest rate the machine allows.
+func c19Hammer(r *fw.R, d c19Desc) {
+	var wg sync.WaitGroup
+	var bad atomic.Int64
+	ctx, cancel := context.WithTimeout(context.Background(), 120*time.Second)
+	defer cancel()
+	start := make(chan struct{})
+	for k := 0; k < d.Conns; k++ {
+		dd := d
+		dd.Defl = false
+		c, peer, peerEnd, err := c19Conn(dd, d.Seed+uint64(k))
+		if err != nil {
+			r.Violate("C19/attach-failed", err.Error(), "")
+			return
+		}
+		defer c.CloseNow()
+		defer peerEnd.Close()
+		var stream []byte
+		for i := 0; i < d.N; i++ {
+			stream = append(stream, peer.Mask(wire.Data(wire.OpText, true, []byte(fmt.Sprintf(`{"conn":%d,"msg":%d,"pad":"%s"}`, k, i, strings.Repeat(string(rune('a'+k%26)), i%40))))).Bytes()...)
+		}
+		go peer.SendBytes(stream)
+		wg.Add(1)
+		go func(k int) {
+			defer wg.Done()
+			<-start
+			for i := 0; i < d.N; i++ {
+				var v struct {
+					Conn, Msg int
+					Pad       string
+				}
+				err := wsjson.Read(ctx, c, &v)
+				if ctx.Err() != nil {
+					return
+				}
+				if err != nil || v.Conn != k || v.Msg != i || v.Pad != strings.Repeat(string(rune('a'+k%26)), i%40) {
+					if bad.Add(1) <= 3 {
+						r.Violate("C19/read-value-differs/concurrent-small-reads", fmt.Sprintf("%s: connection %d document %d of %d connections reading at once: decoded conn=%d msg=%d pad=%.20q err=%v", d.Role, k, i, d.Conns, v.Conn, v.Msg, v.Pad, err), "")
+					}
+					return
+				}
+			}
+			r.Count("values_read_and_compared", int64(d.N))
+		}(k)
+	}
+	close(start)
+	wg.Wait()
+	r.Count("documents_read_by_connections_hammering_the_pool", int64(d.Conns*d.N))
+	r.Key("hammer/%s/conns=%d", d.Role, d.Conns)
+}
+
+// c19Huge: documents of one to several MiB (sizes on both sides of 2^20, 2^21 and 2^22) with the read limit raised
+// above them, read with wsjson.Read and written with wsjson.Write: the value arrives whole whatever its size.
+func c19Huge(r *fw.R, d c19Desc) {
+	p := wire.Params{Deflate: d.Defl}
+	c, _, peerEnd, err := libConn(d.Role, p, 0, xport.Plan{NoTap: true}, xport.Plan{Seed: d.Seed, ReadMax: 1 + int(d.Seed%60000), NoTap: true})
+	if err != nil {
+		r.Violate("C19/attach-failed", err.Error(), "")
+		return
+	}
+	defer c.CloseNow()
+	defer peerEnd.Close()
+	peer := newRawPeer(peerEnd, d.Role, p, d.Seed)
+	peer.AutoClose = true
+	peer.Start()
+	c.SetReadLimit(int64(d.N) + 4096)
+	rng := fw.NewRand(d.Seed)
+	ctx, cancel := context.WithTimeout(context.Background(), 120*time.Second)
+	defer cancel()
+	type hdoc struct {
+		Conn uint64 `json:"conn"`
+		Fill string `json:"fill"`
+		End  string `json:"end"`
+	}
+	// the whole document is d.N bytes long
+	frame := len(`{"conn":,"fill":"","end":"E"}`) + len(fmt.Sprint(d.Seed))
+	fill := make([]byte, d.N-frame)
+	for i := range fill {
+		fill[i] = "abcdefghijklmnopqrstuvwxyz0123456789"[(i*7+i/1000+int(d.Seed%36))%36]
+	}
+	want := hdoc{Conn: d.Seed, Fill: string(fill), End: "E"}
+	docb := []byte(fmt.Sprintf(`{"conn":%d,"fill":"%s","end":"E"}`, d.Seed, fill))
+	what := fmt.Sprintf("%s deflate=%v document of %d bytes (read limit %d)", d.Role, d.Defl, len(docb), d.N+4096)
+	r.Key("huge/%s/deflate=%v/2^%d", d.Role, d.Defl, bitLen(uint64(len(docb))))
+	// read
+	payload := docb
+	if d.Defl {
+		payload = (&wire.Deflater{}).Message(docb, 1, wire.EndSync)
+	}
+	go func() {
+		nf := 1 + rng.Intn(3)
+		for i := 0; i < nf; i++ {
+			a, b := i*len(payload)/nf, (i+1)*len(payload)/nf
+			op := byte(wire.OpText)
+			if i > 0 {
+				op = wire.OpCont
+			}
+			peer.Send(wire.Frame{Fin: i == nf-1, Op: op, Rsv1: d.Defl && i == 0, Payload: payload[a:b], LenForm: -1})
+		}
+	}()
+	var got hdoc
+	if err := wsjson.Read(ctx, c, &got); err != nil {
+		if ctx.Err() != nil {
+			return
+		}
+		r.Violate("C19/valid-document-rejected/huge", fmt.Sprintf("%s: wsjson.Read failed: %v", what, err), "")
+		return
+	}
+	if got != want {
+		r.Violate("C19/read-value-differs/huge", fmt.Sprintf("%s: decoded conn=%d, %d bytes of fill (first difference at %d), end=%q", what, got.Conn, len(got.Fill), firstDiff([]byte(got.Fill), fill), got.End), "")
+		return
+	}
+	r.Count("values_read_and_compared", 1)
+	// write
+	peer.KeepRaw = false
+	if err := wsjson.Write(ctx, c, want); err != nil {
+		if ctx.Err() != nil {
+			return
+		}
+		r.Violate("C19/write-failed/huge", fmt.Sprintf("%s: wsjson.Write failed: %v", what, err), "")
+		return
+	}
+	ok := peer.Wait(30*time.Second, func() bool { return len(peer.Conf.Messages) >= 1 })
+	var back hdoc
+	var n int
+	var derr error
+	peer.Locked(func() {
+		n = len(peer.Conf.Messages)
+		if n > 0 {
+			derr = json.Unmarshal(peer.Conf.Messages[0].Data, &back)
+		}
+	})
+	if !ok || n != 1 || derr != nil || back != want {
+		r.Violate("C19/written-value-differs/huge", fmt.Sprintf("%s: %d messages arrived, decode error %v, %d bytes of fill", what, n, derr, len(back.Fill)), "")
+		return
+	}
+	r.Count("values_written_and_decoded", 1)
+	r.Count("documents_of_a_mebibyte_or_more", 1)
 }
 
 func c19Conn(d c19Desc, seed uint64) (*websocket.Conn, *RawPeer, *xport.End, error) {
